@@ -159,6 +159,24 @@ def run(eng: Engine, ck: Check):
         ok = len(st_store) == 1 and 'init_from_state(state, transfer)' in unparse(st_store[0].value) and \
             any(pol and call_name(e) == 'is_transferring' for e, pol, _ in eng.guards_at(rc, st_store[0]))
         ck.ob('R-C17-REPAIR', rc, lp, 'the repaired state object is installed on the transfer', ok, '', construct='repair installs state')
+    # repairs that go through the state machine must be defined for EVERY state the guard admits (an undefined operation is a silent refusal)
+    for x in calls_in(rc.node):
+        if isinstance(x.func, ast.Attribute) and isinstance(x.func.value, ast.Attribute) and x.func.value.attr == 'state' and x.func.attr in \
+                ('queue', 'complete', 'incomplete', 'fail', 'abort', 'pause', 'initialize', 'start_transferring'):
+            admitted = None
+            for e, pol, _ in eng.guards_at(rc, x):
+                if pol and isinstance(e, ast.Call) and call_name(e) == 'is_transferring':
+                    admitted = {'DOWNLOADING', 'UPLOADING'}
+                elif pol and isinstance(e, ast.Call) and call_name(e) == 'is_processing':
+                    admitted = {'DOWNLOADING', 'UPLOADING', 'INITIALIZING'}
+                elif pol and mentions_attr(e, 'state') and enum_members_in(e):
+                    admitted = set(enum_members_in(e))
+            if admitted is None:
+                admitted = set(states)
+            undefined = sorted(v for v in admitted if v in states and x.func.attr not in states[v].methods)
+            ck.ob('R-C17-REPAIR', rc, x, f'repair `state.{x.func.attr}()` is a defined transition for every state it can be applied to here {sorted(admitted)}',
+                  not undefined, f'{x.func.attr}() is not defined for {undefined}: the base class refuses silently and the transfer stays in that state',
+                  construct=f'repair op {x.func.attr} defined for admitted states')
     ad = eng.func(TM, 'TransferManager.add')
     ck.visited(ad)
     src = unparse(ad.node)
